@@ -99,7 +99,7 @@ class Gen:
             if j < 0.4:
                 rounds = bound
             elif j < 0.6:
-                rounds = r.randrange(0, bound + 1)
+                rounds = r.randrange(0, bound + 3)       # a literal above the bound reverts at run time
             else:
                 rounds = ["and", self.val(sc, 1), 7]        # run time: 0 skips the loop, > bound reverts
             start = r.choice([0, 0, 3, W - 2, self.val(sc, 1)])
@@ -142,6 +142,10 @@ DIRECTED = [
                       ["mstore", 0, "s"]]],
     ["repeat", "i", 0, 2, 2, ["seq", ["mstore", 0, "i"], ["add", "i", 1]]],
     ["seq", ["assert", ["calldataload", 0]], ["mstore", 0, 1]],
+    # a literal round count different from the bound keeps its run-time checks: 7 > 5 reverts, 0 skips the loop
+    ["seq", ["mstore", 32, 1], ["repeat", "i", 0, 7, 5, ["mstore", ["mul", 32, ["and", "i", 7]], 9]]],
+    ["seq", ["mstore", 32, 1], ["repeat", "i", 4, 0, 5, ["mstore", ["mul", 32, ["and", "i", 7]], 9]]],
+    ["seq", ["mstore", 32, 1], ["repeat", "i", 4, 2, 5, ["mstore", ["mul", 32, ["and", "i", 7]], 9]]],
 ]
 
 
@@ -170,15 +174,24 @@ def run(ctx):
     want = 110 if ctx.tier != "thorough" else 900
     inputs = [[0, 0, 0], [1, 2, 3], [rnd.randrange(8), rnd.randrange(W), rnd.randrange(8)], [W - 1, 5, HALF]]
     chain = Chain("cancun")
-    cases, exprs, feats = [], [], {"with": 0, "set": 0, "repeat": 0, "break": 0, "continue": 0}
+    cases, exprs, excs, feats = [], [], [], {"with": 0, "set": 0, "repeat": 0, "break": 0, "continue": 0}
     with anchor_settings(Settings(evm_version="cancun")):
         for prog in programs(rnd, want):
             try:
                 node = IRnode.from_list(prog)
                 c = c15_tree.coq_of_node(node)
+            except Exception:  # noqa  (rejected by the IRnode constructor: not a case)
+                continue
+            try:
                 asm = compile_ir.compile_to_assembly(node, OptimizationLevel.NONE)
                 code = assembly_to_evm(asm)[0]
-            except Exception:  # noqa  (ill-typed random tree, DUP17, ...: not a case)
+            except Exception as e:  # noqa
+                if "too deep" in str(e):        # DUP17 / SWAP17: a limit of the lowerer, not a case
+                    continue
+                # the generated programs are well-scoped: evalW gives them a meaning, so the lowerer must accept them
+                cases.append((c15_tree.show_node(node), [], [99, len(cases)]))
+                exprs.append(f"runW_obs {c} []")
+                excs.append(f"{type(e).__name__}: {e}"[:300])
                 continue
             txt = repr(prog)
             for f in feats:
@@ -204,7 +217,8 @@ def run(ctx):
         if list(e) != got and bad is None:
             bad = {"ir": s0[:1800], "calldata_words": [hex(v) for v in cd],
                    "coq_evalW": [hex(v) for v in e], "compile_ir+evm": [hex(v) for v in got],
-                   "legend": "status 1=RETURN(12 words) 2=REVERT/INVALID 3=STOP 12=fuel 13=stuck"}
+                   "legend": "status 1=RETURN(12 words) 2=REVERT/INVALID 3=STOP 12=fuel 13=stuck 99=the real lowerer raised",
+                   "lowerer_exceptions": excs[:2]}
     ctx.corr["semw_cases"] = len(cases)
     ctx.corr["semw_returning_nonzero"] = nontrivial
     ctx.corr["semw_features"] = feats
